@@ -69,14 +69,14 @@ def plan(tier, seed):
         specs += [dict(seed=seed, shard="control-%d" % i, kind="control", n=20) for i in range(4)]
         specs += [dict(seed=seed, shard="rerun-%d" % i, kind="rerun", n=30) for i in range(4)]
         specs += [dict(seed=seed, shard="pending-%d" % i, kind="pending", n=10) for i in range(4)]
-        specs += [dict(seed=seed, shard="known", kind="known", n=2), dict(seed=seed, shard="mixed", kind="mixed", n=30)]
+        specs += [dict(seed=seed, shard="known", kind="known", n=2), dict(seed=seed, shard="mixed", kind="mixed", n=30), dict(seed=seed, shard="adopting", kind="adopting", n=20)]
     else:
         specs = [dict(seed=seed, shard="product-%d" % i, kind="product", part=i, parts=8, stride=9, repeat=1, n=1) for i in range(8)]
         specs += [dict(seed=seed, shard="random-%d" % i, kind="random", n=8) for i in range(6)]
         specs += [dict(seed=seed, shard="control-0", kind="control", n=6)]
         specs += [dict(seed=seed, shard="rerun-%d" % i, kind="rerun", n=6) for i in range(2)]
         specs += [dict(seed=seed, shard="pending-%d" % i, kind="pending", n=2) for i in range(3)]
-        specs += [dict(seed=seed, shard="known", kind="known", n=1), dict(seed=seed, shard="mixed", kind="mixed", n=3)]
+        specs += [dict(seed=seed, shard="known", kind="known", n=1), dict(seed=seed, shard="mixed", kind="mixed", n=3), dict(seed=seed, shard="adopting", kind="adopting", n=3)]
     del total
     return specs
 
@@ -247,6 +247,31 @@ def gen_pending_case(rnd, spec):
             "meta": {"kind": "pending", "fail": [[flavour, "raise", what, "exception", "running", False]]}}
 
 
+def gen_adopting_case(rnd, spec):
+    """Coroutine payloads that adopt as the very first thing they do - while the runtime is still handing over what was
+    queued before the start - and a thread payload, started before them, that fails a moment later."""
+    flavour = ["trio", "asyncio", "foreign"][spec.get("case_index", 0) % 3]
+    if flavour == "foreign":
+        # nothing keeps the runtime's event loop busy; the failing asyncio payload is adopted by a thread payload from inside
+        # an event loop of its own (a thread driving a coroutine library with asyncio.run)
+        how, what = rnd.choice([("raise", "LookupError"), ("return", "zero")])
+        gen = {"accept_delay": 0.05, "services": [], "grace": 0.2, "payloads": [
+            {"id": "quiet", "flavour": "trio", "when": "queued", "program": [["block"]], "cleanup": {"kind": "none"}},
+            {"id": "f0", "flavour": "asyncio", "program": [[how, what]], "cleanup": {"kind": "none"}},
+            {"id": "owner", "flavour": "threading", "when": "queued", "program": [["sleep", 0.3], ["private_loop_adopt", ["f0"], 0.3]], "cleanup": {"kind": "none"}}],
+            "script": [["wait_running", 8], ["sleep", 0.5], ["expect_end", PATIENCE]]}
+        return {"watchdog": 25, "inject": None, "generations": [gen],
+                "meta": {"kind": "adopting", "fail": [["asyncio", how, what, "exception", "from_foreign_loop", False]], "meta_runner": False}}
+    gen = {"accept_delay": 0.03, "services": [], "grace": 0.2, "payloads": [
+        {"id": "f0", "flavour": "threading", "when": "queued", "program": [["sleep", 0.3], ["raise", "LookupError"]], "cleanup": {"kind": "none"}}]}
+    for i in range(rnd.randint(1, 3)):
+        gen["payloads"].append({"id": "kid%d" % i, "flavour": rnd.choice(common.FLAVOURS), "program": [["sleep", 0.01]], "cleanup": {"kind": "none"}})
+        gen["payloads"].append({"id": "early%d" % i, "flavour": flavour, "when": "queued", "program": [["adopt", "kid%d" % i], ["beat", 0.02, None]], "cleanup": {"kind": "none"}})
+    gen["script"] = [["wait_running", 4], ["expect_end", PATIENCE]]
+    return {"watchdog": 25, "inject": None, "generations": [gen],
+            "meta": {"kind": "adopting", "fail": [["threading", "raise", "LookupError", "exception", "queued", True]], "meta_runner": False}}
+
+
 def gen_mixed_case(rnd, spec):
     """Two payloads of one coroutine flavour fail in the very same scheduler tick (both wait on one event of their framework),
     one with an Exception or a return value, the other with a KeyboardInterrupt: a failure has happened, so the run raises."""
@@ -392,7 +417,7 @@ def run_shard(spec):
         gen = lambda i, rep: gen_product_case(core.rng(PID, spec["seed"], "product", i, rep), items[i])  # noqa: E731
     else:
         todo = [(i, 0) for i in range(spec["n"])]
-        g = {"random": gen_random_case, "control": gen_control_case, "rerun": gen_rerun_case, "pending": gen_pending_case, "known": gen_known_case, "mixed": gen_mixed_case}[spec["kind"]]
+        g = {"random": gen_random_case, "control": gen_control_case, "rerun": gen_rerun_case, "pending": gen_pending_case, "known": gen_known_case, "mixed": gen_mixed_case, "adopting": gen_adopting_case}[spec["kind"]]
         gen = lambda i, rep: g(core.rng(PID, spec["seed"], spec["shard"], i), dict(spec, case_index=i))  # noqa: E731
     for i, rep in todo:
         cid = i * 10 + rep
